@@ -970,4 +970,209 @@ theorem wsiLoop_spec (env : Env) (hind : IndentOk env.config) (pre snippet post 
       LoopOut.cons sl rest o1 o hout1 hout'⟩
     simp only [wsiLoop, hrun]; exact hrun'
 
+/-! ## The closure, `write_snippet`, `format_missing_inner`, `format_missing` -/
+
+/-- What the closure of `format_missing*` pushes: `last_snippet` (white space) and fixed blanks. -/
+def LastOut (o : List Piece) : Prop := ∃ t bl, o = ⟨.last, t⟩ :: bl ∧ AllWs t ∧ BlankPieces bl
+
+theorem LastOut.content {o : List Piece} (h : LastOut o) : squeeze (render o) = [] := by
+  obtain ⟨t, bl, rfl, ht, hbl⟩ := h
+  have : render (⟨.last, t⟩ :: bl) = t ++ render bl := by simp [render]
+  rw [this, squeeze_append, squeeze_of_allWs ht, hbl.content]; rfl
+
+theorem LastOut.noVspace {o : List Piece} (h : LastOut o) : ∀ q ∈ o, q.tag ≠ .vspace := by
+  obtain ⟨t, bl, rfl, _, hbl⟩ := h
+  intro q hq
+  rcases List.mem_cons.mp hq with rfl | hq
+  · simp
+  · exact hbl.noVspace q hq
+
+/-- `process_last_snippet(this, last_snippet, snippet)` for a `last_snippet` of white space. -/
+theorem processLast_spec (env : Env) (hind : IndentOk env.config) (k : Last) (v : Vis)
+    (lastSnippet snippet : List Char) (hws : AllWs lastSnippet) :
+    ∃ o, processLast env k v lastSnippet snippet =
+        some (o.foldl (fun v q => v.push q.tag q.text) v) ∧ LastOut o := by
+  have hnl : BlankPieces [⟨.blank, ['\n']⟩] := BlankPieces.single (allWs_single isWs_nl)
+  cases k with
+  | plain => exact ⟨[⟨.last, lastSnippet⟩], rfl, lastSnippet, [], rfl, hws, BlankPieces.nil⟩
+  | indent si =>
+    unfold processLast
+    simp only [allWs_trimEnd hws]
+    by_cases hc : lastSnippet = snippet ∧ (!(v.push .last []).buffer.isEmpty) = true
+    · rw [if_pos hc]
+      cases si with
+      | false => exact ⟨[⟨.last, []⟩, ⟨.blank, ['\n']⟩], rfl, [], _, rfl, allWs_nil, hnl⟩
+      | true =>
+        obtain ⟨ind, h1, h2⟩ := indentStr_ok env hind ((v.push .last []).push .blank ['\n']).blockIndent
+        simp only [if_true, h1]
+        exact ⟨[⟨.last, []⟩, ⟨.blank, ['\n']⟩, ⟨.blank, ind⟩], rfl, [], _, rfl, allWs_nil,
+          hnl.append (BlankPieces.single h2)⟩
+    · rw [if_neg hc]
+      cases si with
+      | false => exact ⟨[⟨.last, []⟩], rfl, [], [], rfl, allWs_nil, BlankPieces.nil⟩
+      | true =>
+        obtain ⟨ind, h1, h2⟩ := indentStr_ok env hind (v.push .last []).blockIndent
+        simp only [if_true, h1]
+        exact ⟨[⟨.last, []⟩, ⟨.blank, ind⟩], rfl, [], _, rfl, allWs_nil, BlankPieces.single h2⟩
+
+/-- What one call of `format_missing*` pushes for the snippet. -/
+inductive WholeOut (env : Env) (snippet : List Char) : List Piece → Prop
+  /-- nothing: an empty span at the start of the output, or a blank snippet at the start of the file -/
+  | nothing : AllWs snippet → WholeOut env snippet []
+  /-- an empty span: the closure on `("", "")` -/
+  | empty (last : List Piece) : snippet = [] → LastOut last → WholeOut env snippet last
+  /-- a blank snippet: vertical spaces, then the closure -/
+  | blank (t : List Char) (last : List Piece) : AllWs snippet → (∃ k, t = List.replicate k '\n') →
+      LastOut last → WholeOut env snippet (⟨.vspace, t⟩ :: last)
+  /-- `write_snippet`: the slices one by one, then the closure -/
+  | written (items : List Slice) (lo last : List Piece) : commentCodeSlices? snippet = some items →
+      LoopOut env items lo → LastOut last → WholeOut env snippet (lo ++ last)
+  /-- the `;` of `format_missing` -/
+  | semi : trim snippet = [';'] → WholeOut env snippet [⟨.code, [';']⟩]
+
+/-- The result of one call. -/
+structure Result (env : Env) (v : Vis) (end_ : Nat) (snippet : List Char) (v' : Vis)
+    (o : List Piece) : Prop where
+  buffer : v'.buffer = v.buffer ++ render o
+  log : v'.log = v.log ++ o
+  indent : v'.blockIndent = v.blockIndent
+  pos : v'.lastPos = end_
+  content : RcContent env.rc → squeeze (render o) = squeeze snippet
+  vs : VspaceOk env v.buffer o
+  shape : WholeOut env snippet o
+
+theorem result_of_wrote {env : Env} {v v1 v' : Vis} {end_ : Nat} {snippet : List Char} {o : List Piece}
+    (hv1 : v1 = { v with lastPos := end_ }) (hw : Wrote v1 v' o)
+    (hc : RcContent env.rc → squeeze (render o) = squeeze snippet) (hvs : VspaceOk env v.buffer o)
+    (hsh : WholeOut env snippet o) : Result env v end_ snippet v' o := by
+  subst hv1
+  exact ⟨hw.buffer, hw.log, hw.indent, hw.pos, hc, hvs, hsh⟩
+
+theorem writeSnippet_spec (env : Env) (hind : IndentOk env.config) (k : Last)
+    (pre snippet post : List Char) (hbig : env.big = pre ++ snippet ++ post) (v : Vis) :
+    ∃ v' o, writeSnippet env k (utf8Len pre) snippet v = some v' ∧ Wrote v v' o ∧
+      (RcContent env.rc → squeeze (render o) = squeeze snippet) ∧ VspaceOk env v.buffer o ∧
+      ∃ items lo last, commentCodeSlices? snippet = some items ∧ LoopOut env items lo ∧ LastOut last ∧
+        o = lo ++ last := by
+  obtain ⟨items, hitems, hcat, halt, hcont⟩ := slices_spec snippet
+  have hinv0 : Inv env v .normal [] ⟨0, none, lineOfBytePos env.big (utf8Len pre)⟩ v [] :=
+    ⟨Wrote.refl v, ⟨[], [], rfl, allWs_nil, rfl⟩, fun _ => rfl, fun _ => rfl, VspaceOk.nil env _⟩
+  obtain ⟨st', v1, lo, k', hrun, hinv, hlo⟩ :=
+    wsiLoop_spec env hind pre snippet post hbig v items [] .normal _ v [] (by simp [hcat]) halt
+      (by simpa [utf8Len] using hcont) hinv0
+  obtain ⟨p, q, hsplit, hq, hls⟩ := hinv.split
+  have hdrop : dropBytes? st'.line_start snippet = some q := dropBytes_of_split snippet p q _ hsplit hls
+  obtain ⟨last, hlast, hlastOut⟩ := processLast_spec env hind k v1 q snippet hq
+  refine ⟨last.foldl (fun v q => v.push q.tag q.text) v1, lo ++ last, ?_, ?_, ?_, ?_,
+    items, lo, last, hitems, hlo, hlastOut, rfl⟩
+  · unfold writeSnippet
+    rw [hitems]; simp only
+    rw [hrun]; simp only
+    rw [hdrop]; simp only
+    exact hlast
+  · have := wrote_foldl hinv.wrote last
+    simpa using this
+  · intro hrc
+    have := hinv.content hrc
+    simp only [List.nil_append] at this
+    rw [render_append, squeeze_append, this, hlastOut.content]; simp
+  · have := hinv.vs
+    simp only [List.nil_append] at this
+    exact this.append hlastOut.noVspace
+
+theorem formatMissingInner_spec (env : Env) (hind : IndentOk env.config) (k : Last)
+    (pre snippet post : List Char) (hbig : env.big = pre ++ snippet ++ post) (v : Vis)
+    (hpos : v.lastPos = utf8Len pre) (end_ : Nat) (hend : end_ = utf8Len pre + utf8Len snippet) :
+    ∃ v' o, formatMissingInner env k end_ v = some v' ∧ Result env v end_ snippet v' o := by
+  unfold formatMissingInner
+  simp only
+  by_cases hempty : snippet = []
+  · -- start == end
+    subst hempty
+    have he : v.lastPos = end_ := by rw [hpos, hend]; simp [utf8Len]
+    rw [if_pos he]
+    cases hb : v.buffer.isEmpty with
+    | true =>
+      refine ⟨v, [], by simp, ?_⟩
+      exact ⟨by simp [render], by simp, rfl, he, fun _ => rfl, VspaceOk.nil env _,
+        WholeOut.nothing allWs_nil⟩
+    | false =>
+      obtain ⟨o, ho, hlo⟩ := processLast_spec env hind k v [] [] allWs_nil
+      refine ⟨_, o, by simpa using ho, ?_⟩
+      have hw := wrote_foldl (Wrote.refl v) o
+      simp only [List.nil_append] at hw
+      exact ⟨hw.buffer, hw.log, hw.indent, by rw [hw.pos]; exact he, fun _ => by rw [hlo.content]; rfl,
+        (VspaceOk.nil env _).append hlo.noVspace |> (by simpa using ·), WholeOut.empty o rfl hlo⟩
+  · have hlen : 0 < utf8Len snippet := by
+      cases snippet with
+      | nil => exact absurd rfl hempty
+      | cons c cs => have := utf8Size_pos c; simp [utf8Len]; omega
+    have hne : ¬ v.lastPos = end_ := by rw [hpos, hend]; omega
+    have hlt : v.lastPos < end_ := by rw [hpos, hend]; omega
+    rw [if_neg hne]
+    simp only [hlt, not_true_eq_false, if_false]
+    have hsl : sliceBytes? env.big v.lastPos end_ = some snippet :=
+      sliceBytes_of_split env.big pre snippet post _ _ hbig hpos hend
+    rw [hsl]
+    simp only
+    by_cases hfirst : env.base + v.lastPos = 0 ∧ (trim snippet).isEmpty = true
+    · rw [if_pos hfirst]
+      have hws : AllWs snippet := (trim_nil_iff snippet).mp (by simpa using hfirst.2)
+      refine ⟨_, [], rfl, ?_⟩
+      exact ⟨by simp [render], by simp, rfl, rfl, fun _ => by rw [squeeze_of_allWs hws]; rfl,
+        VspaceOk.nil env _, WholeOut.nothing hws⟩
+    · rw [if_neg hfirst]
+      by_cases hblank : (trim snippet).isEmpty = true
+      · rw [if_pos hblank]
+        have hws : AllWs snippet := (trim_nil_iff snippet).mp (by simpa using hblank)
+        have hw0 : Wrote { v with lastPos := end_ } { v with lastPos := end_ } [] := Wrote.refl _
+        have hw1 := hw0.pushVerticalSpaces env (RF.Newline.countNewlines snippet)
+        obtain ⟨o, ho, hlo⟩ := processLast_spec env hind k
+          (({ v with lastPos := end_ } : Vis).pushVerticalSpaces env (RF.Newline.countNewlines snippet))
+          [] snippet allWs_nil
+        have hw2 := wrote_foldl hw1 o
+        refine ⟨_, _, ho, result_of_wrote rfl hw2 ?_ ?_ ?_⟩
+        · intro _
+          rw [render_append, squeeze_append, hlo.content, squeeze_of_allWs hws]
+          simp only [List.nil_append, render_single]
+          rw [squeeze_of_allWs (allWs_replicate _ _ isWs_nl)]; rfl
+        · have := (VspaceOk.nil env v.buffer).vspace (RF.Newline.countNewlines snippet)
+          simp only [List.nil_append, render_nil, List.append_nil] at this
+          exact this.append hlo.noVspace
+        · simp only [List.nil_append, List.singleton_append]
+          exact WholeOut.blank _ o hws ⟨_, rfl⟩ hlo
+      · rw [if_neg hblank]
+        have hbig' : ({ env with } : Env).big = pre ++ snippet ++ post := hbig
+        obtain ⟨v', o, hrun, hw, hc, hvs, items, lo, last, hitems, hlo, hlast, ho⟩ :=
+          writeSnippet_spec env hind k pre snippet post hbig { v with lastPos := end_ }
+        rw [hpos]
+        refine ⟨v', o, hrun, ?_⟩
+        apply result_of_wrote rfl hw hc hvs
+        rw [ho]
+        exact WholeOut.written items lo last hitems hlo hlast
+
+theorem formatMissing_spec (env : Env) (hind : IndentOk env.config)
+    (pre snippet post : List Char) (hbig : env.big = pre ++ snippet ++ post) (v : Vis)
+    (hpos : v.lastPos = utf8Len pre) (end_ : Nat) (hend : end_ = utf8Len pre + utf8Len snippet) :
+    ∃ v' o, formatMissing env end_ v = some v' ∧ Result env v end_ snippet v' o := by
+  unfold formatMissing
+  have hle : v.lastPos ≤ end_ := by rw [hpos, hend]; omega
+  have hsl : sliceBytes? env.big (min v.lastPos end_) (max v.lastPos end_) = some snippet := by
+    rw [Nat.min_eq_left hle, Nat.max_eq_right hle]
+    exact sliceBytes_of_split env.big pre snippet post _ _ hbig hpos hend
+  simp only [hsl]
+  by_cases hsemi : trim snippet = [';']
+  · rw [if_pos hsemi]
+    refine ⟨_, [⟨.code, [';']⟩], rfl, ?_⟩
+    have hw := (Wrote.refl v).push .code [';']
+    simp only [List.nil_append] at hw
+    refine ⟨hw.buffer, hw.log, hw.indent, rfl, ?_, ?_, WholeOut.semi hsemi⟩
+    · intro _
+      rw [← squeeze_trim snippet, hsemi]; rfl
+    · have := (VspaceOk.nil env v.buffer).append (o := [⟨.code, [';']⟩])
+        (by intro q hq; simp at hq; subst hq; simp)
+      simpa using this
+  · rw [if_neg hsemi]
+    exact formatMissingInner_spec env hind .plain pre snippet post hbig v hpos end_ hend
+
 end RF.Lemmas.Missed
